@@ -33,6 +33,17 @@ Theorem C14_paragraph_kept_on_request (o : copts) (cm : list comment) cs sid sna
   visit o cm (DParagraph cs sid sname num) hdr st = Ok (ns, st') ->
   exists kids, strip_empty ns = [Elem t kids].
 Proof. exact (paragraph_block_kept o cm cs sid sname num hdr st ns st' t l). Qed.
+(* by default (ignore_empty_paragraphs = True) a paragraph yields no block exactly when its converted content holds nothing that
+   counts as content — no non-empty text, no force-write marker (bookmark, table structure), no childless void element —
+   unless it is mapped to a void element and has no children at all *)
+Theorem C14_paragraph_dropped_by_default (o : copts) (cm : list comment) cs sid sname num hdr st ns st' t l :
+  o_ignore_empty o = true -> para_path o sid sname num = PElems (t :: l) ->
+  visit o cm (DParagraph cs sid sname num) hdr st = Ok (ns, st') ->
+  exists content st1,
+    visit_list o cm cs hdr st1 = Ok (content, st') /\
+    (strip_empty ns = [] <->
+     existsb keep content = false /\ (content <> [] \/ mem_str (tname (last (t :: l) t)) HtmlTables.void_tag_names = false)).
+Proof. exact (paragraph_dropped_iff o cm cs sid sname num hdr st ns st' t l). Qed.
 (* bookmark anchors and table structure are never dropped *)
 Theorem C14_structure_kept (o : copts) (cm : list comment) (e : delem) hdr st ns st' :
   (match e with DBookmark _ | DTableRow _ _ | DTableCell _ _ _ => True | _ => False end) ->
@@ -53,4 +64,5 @@ Print Assumptions C14_content_preserved.
 Print Assumptions C14_text_preserved.
 Print Assumptions C14_idempotent.
 Print Assumptions C14_paragraph_kept_on_request.
+Print Assumptions C14_paragraph_dropped_by_default.
 Print Assumptions C14_structure_kept.
